@@ -358,6 +358,7 @@ inductive Resp where
   | hashMismatch    -- 422 RequestHashError
   | collision       -- 500 CollisionError
   | disconnect      -- 503 ErrClientDisconnect
+  | full            -- 503 FullError: every writable volume refused with FullError
   | fail            -- 500 GenericError
 deriving DecidableEq, Repr
 
@@ -378,7 +379,11 @@ structure PutIn where
   attempts : List WBIn        -- WriteBlock attempts (reader outcomes decided by putWithPipe)
   cancelled : Bool            -- the request context ended before putWithPipe returned
   compareCancelled : Bool     -- the request context ended while `Compare` was running
+  volumeFull : Bool           -- `IsFull()`: every `WriteBlock` returns FullError before its first step
 deriving Repr
+
+/-- The `WriteBlock` attempts that do anything: none on a full volume. -/
+def PutIn.effAttempts (p : PutIn) : List WBIn := if p.volumeFull then [] else p.attempts
 
 /-- `UnixVolume.Compare` (through `stat` and `getFunc`): stat the block path, and if it exists open
 and read it. No effect on the volume, whatever the outcome (match, mismatch, read error, context
@@ -389,11 +394,13 @@ def compareEvs (fs : FS) (h : Name) : List Ev :=
   | some _ => [⟨some ⟨.stat, 0⟩, .nop⟩, ⟨some ⟨.getFunc, 0⟩, .nop⟩, ⟨some ⟨.getFunc, 1⟩, .nop⟩]
 
 /-- `PutBlock` after `Compare` returned without the context having ended: identical copy ⇒ Touch;
-same hash, other bytes ⇒ collision; corrupt or absent ⇒ write. -/
+same hash, other bytes ⇒ collision; corrupt or absent ⇒ write (a full volume refuses every
+write with FullError before its first step: no event, and never a 200). -/
 def putCore (hash : Bytes → Name) (fs : FS) (p : PutIn) : List Ev × Resp :=
   let write (pre : List Ev) : List Ev × Resp :=
-    let r := attemptsEvs p.attempts
-    (pre ++ r.1, if p.cancelled then .disconnect else if r.2 then .ok200 else .fail)
+    let r := attemptsEvs p.effAttempts
+    (pre ++ r.1, if p.cancelled then .disconnect else if r.2 then .ok200
+                 else if p.volumeFull then .full else .fail)
   match fs.get (blockPath p.h) with
   | none => write []
   | some f =>
